@@ -150,13 +150,15 @@ Definition fl_res_ok (m o : option (list (option fl))) : bool :=
   end.
 
 (* ---------- cases ---------- *)
-(* CBoolEnum: [count] expressions from index [start] of the enumeration with n operator nodes; obs packs 16
-   expressions per number, 16 bits each, lowest first: truth vector with the optimizer + 256 * truth vector
-   without; errs = the implementation answered with an error somewhere (never expected here).
+(* CBoolEnum: [count] expressions from index [start] of the enumeration with n operator nodes; the observations
+   (per expression: truth vector with the optimizer + 256 * truth vector without) travel as two running
+   checksums h := (h * m + v + c) mod (2^31 - 1) - a literal per observation costs more to read than to check;
+   the Go side compares every vector itself, and a replay of a block sends its expressions one by one;
+   errs = the implementation answered with an error somewhere (never expected here).
    CBoolExpl: tokens of the real tokenizer (None: a let/if form the model renders itself), source tree,
    observations with / without the optimizer: 0 = Parse or Generate failed, else 1 + 2*(vector + 256*error mask). *)
 Inductive c19_body :=
-| CBoolEnum (flags : list bool) (n : nat) (start : N) (count : nat) (errs : bool) (obs : list N)
+| CBoolEnum (flags : list bool) (n : nat) (start : N) (count : nat) (errs : bool) (h1 h2 : N)
 | CBoolExpl (flags : list bool) (toks : option (list (N * str))) (src : sexp) (on off : N)
 | CFloatEnum (flags : list bool) (n : nat) (idx : N) (on off : list Z)
 | CFloatExpl (flags : list bool) (toks : option (list (N * str))) (src : sexp) (on off : list Z).
@@ -213,19 +215,21 @@ Definition bool_spec_packed (cfg : gcfg bool) (e : sexp) : option N :=
 
 Definition optN_is (m : option N) (o : N) : bool := match m with Some v => v =? o | None => false end.
 
-(* walk the packed observations: [k] expressions left in the current number [cur] *)
-Fixpoint enum_all (f : N -> N -> bool) (count : nat) (idx : N) (k : nat) (cur : N) (rest : list N) : bool :=
+(* checksums of the packed values of [count] expressions from [idx]; a value the model cannot give (None)
+   poisons the sums *)
+Definition hmod : N := 2147483647.
+Fixpoint enum_sums (f : N -> option N) (count : nat) (idx : N) (h1 h2 : N) : option (N * N) :=
   match count with
-  | O => true
+  | O => Some (h1, h2)
   | S c =>
-      match k with
-      | O => match rest with
-             | x :: r => f idx (N.land x 65535) && enum_all f c (N.succ idx) 15 (N.shiftr x 16) r
-             | [] => false
-             end
-      | S k' => f idx (N.land cur 65535) && enum_all f c (N.succ idx) k' (N.shiftr cur 16) rest
+      match f idx with
+      | Some v => enum_sums f c (N.succ idx) ((h1 * 65599 + v + 1) mod hmod) ((h2 * 31337 + v + 7) mod hmod)
+      | None => None
       end
   end.
+
+Definition sums_are (r : option (N * N)) (h1 h2 : N) : bool :=
+  match r with Some (a, b) => (a =? h1) && (b =? h2) | None => false end.
 
 (* explicit bool observation of the model / the specification in the packed form *)
 Fixpoint err_mask (l : list (option bool)) (bit : N) : N :=
@@ -248,11 +252,11 @@ Definition pack_obs (r : option (list (option bool))) : N :=
 
 Definition c19_im (c : c19_case) : bool :=
   match snd c with
-  | CBoolEnum flags n start count errs obs =>
+  | CBoolEnum flags n start count errs h1 h2 =>
       let cfg := with_flags flags bool_cfg in
       let cs := counts bool_alpha n in
       negb errs &&
-      enum_all (fun idx o => optN_is (bool_model_packed cfg (unrank bool_alpha cs (S n) n idx) idx) o) count start 0 0 obs
+      sums_are (enum_sums (fun idx => bool_model_packed cfg (unrank bool_alpha cs (S n) n idx) idx) count start 0 0) h1 h2
   | CBoolExpl flags toks src on off =>
       let cfg := with_flags flags bool_cfg in
       match case_toks cfg toks src with
@@ -294,11 +298,11 @@ Definition bool_spec_ok (s : list (option bool)) (o : N) : bool :=
 
 Definition c19_is (c : c19_case) : bool :=
   match snd c with
-  | CBoolEnum flags n start count errs obs =>
+  | CBoolEnum flags n start count errs h1 h2 =>
       let cfg := with_flags flags bool_cfg in
       let cs := counts bool_alpha n in
       negb errs &&
-      enum_all (fun idx o => optN_is (bool_spec_packed cfg (unrank bool_alpha cs (S n) n idx)) o) count start 0 0 obs
+      sums_are (enum_sums (fun idx => bool_spec_packed cfg (unrank bool_alpha cs (S n) n idx)) count start 0 0) h1 h2
   | CBoolExpl flags _ src on off =>
       let s := spec_results (with_flags flags bool_cfg) bool_args src bool_assigns in
       bool_spec_ok s on && bool_spec_ok s off
